@@ -25,7 +25,9 @@ func MergeFilters(node Node) (Node, bool) {
 						Type:           octosql.TypeSum(node.Filter.Predicate.Type, node.Filter.Source.Filter.Predicate.Type),
 						ExpressionType: ExpressionTypeAnd,
 						And: &And{
-							Arguments: append(node.Filter.Predicate.SplitByAnd(), node.Filter.Source.Filter.Predicate.SplitByAnd()...),
+							// Inner predicates first: AND evaluates left to right and stops at FALSE,
+							// so the outer predicate is still only evaluated on rows the inner filter lets through.
+							Arguments: append(node.Filter.Source.Filter.Predicate.SplitByAnd(), node.Filter.Predicate.SplitByAnd()...),
 						},
 					},
 					Source: node.Filter.Source.Filter.Source,
